@@ -269,7 +269,9 @@ def run(pid, tier, seed, replay=None):
         e4 = []
         for i, (p, _, st) in enumerate(beh):
             ex = got[i]
-            if ex is not None and [x["t"] for x in sw.normalise(ex) if x["k"] not in ("reset", "end", "final")][:len(st)] == st:
+            # the order of all logged steps except fences (a fence the code no longer executes is judged by trace validation)
+            want = [t for t, k in st if k != "fence"]
+            if ex is not None and [x["t"] for x in sw.normalise(ex) if x["k"] not in ("reset", "end", "final", "fence")][:len(want)] == want:
                 followed += 1
                 e4.append(ex)
                 s4[ex[-1].get("status", "?")] = s4.get(ex[-1].get("status", "?"), 0) + 1
@@ -297,7 +299,7 @@ def run(pid, tier, seed, replay=None):
             ex2 = rerun(key, strategy="random", max_steps=200000)
             V.extra["budget_reruns"] = V.extra.get("budget_reruns", 0) + 1
             if ex2 is None or ex2[-1].get("status") != "ok":
-                rp = vlib.save_replay(pid, "livelock_%d.json" % len(kept), {"exec": key, "clause": "Termination", "layer": "sched", "trace": ex[-300:]})
+                rp = vlib.save_replay(pid, "livelock_%d.json" % V.extra["budget_reruns"], {"exec": key, "clause": "Termination", "layer": "sched", "trace": ex[-300:]})
                 V.violation("Termination: an operation never returns (status %s under a fair random schedule too) params=%s" % (ex2[-1].get("status") if ex2 else "?", key["params"].get("prog")), rp)
             continue
         kept.append(ex)
